@@ -52,7 +52,7 @@ CHECKS = {
             "documents with the same Draft-6 meaning on every value and accept the same values whenever neither call crashes - dict-valued keywords in any order, thresholds as int or the equal float.  "
             "The statement is FALSE without the multipleOf premise (C17_interchangeable_refuted: multipleOf 2 vs 2.0, finding K17).  Trees with object classes: C17_equal_same_verdict_classes "
             "(equal trees - class names are not compared - accept the same values; through the in-place documents of Resolve.ser_inl and C03_inplace_meaning; premise ClsFrag.goodcb, proved sound; "
-            "C17_classes_inhabited).  What == feeds (parser de-duplication, _from_definitions) is outside the theorems: oracle.  Equality.v is tied to the code by evaluating elem_eq in Coq on "
+            "C17_classes_inhabited).  C17_reference_to_equal_definition: replacing sub-elements by references to equal caller definitions (_from_definitions) leaves the meaning of the emitted document unchanged (= C03_meaning_definitions).  Parser de-duplication (two different schemas under one title) is outside the theorems: oracle.  Equality.v is tied to the code by evaluating elem_eq in Coq on "
             "every generated pair (the run counts the equal pairs each theorem applies to).",
             "reflexive/symmetric full; interchangeable: proved for reference-free elements and class trees without float multipleOf, refuted in general (finding K17); uses of == by the parser/serializer by oracle + correspondence"),
     "C08": ("Coq theorem over all bind histories (re-binding well-bound properties is the identity; every prefix too) + write set regenerated from /repo and checked against the audited one + before/after identity-dump oracle + _Property.bind correspondence",
@@ -131,11 +131,13 @@ CHECKS = {
             "(ClsFrag.defs_okb: so no two different classes share a name, finding K25 otherwise), for all large enough fuel resolve_doc(ser_doc e classes) = ser_inl e (C03_resolution, by induction with the "
             "slot-by-slot map over the 27 keywords) and v6 WCode (ser_inl e) v agrees with build e v (C03_inplace_meaning: the typed-object clause of Spec6 with the code's required-with-default waiver).  "
             "Both checkers proved sound and counted per run (codes 9/10).  Also C03_required_complete, C03_properties_keyed_by_source; refuted on the old behaviour: C03_old_*_refuted (fixes f0c8af1, aba574c).  "
-            "Outside the theorems: caller-supplied definitions (_from_definitions replaces ==-equal sub-elements: needs C17's congruence), several roots, the orderer's class collection (taken from the "
-            "implementation and checked by defs_okb).  Each run (i) recomputes every generated document with SerJson/RunSer.ser_doc inside Coq and requires equality with serialize_json's output, (ii) resolves "
+            "C03_meaning_definitions: with CALLER-SUPPLIED definitions (every sub-element == to a definition replaced by a reference to it) and several roots, under the executable premise DefsFrag.cd_okb "
+            "(primary and definitions in the fragment of C17's class congruence, every class and definition present under its name/key, no definition deeper than a node it equals; proved sound, code 12), "
+            "the emitted document resolves to one that accepts exactly what the tree accepts - by the two-serializer congruence C17Classes.ek_cong and ser_inl_cong.  "
+            "Outside the theorems: the orderer's class collection (taken from the implementation and checked by defs_okb / cd_okb).  Each run (i) recomputes every generated document with SerJson/RunSer.ser_doc inside Coq and requires equality with serialize_json's output, (ii) resolves "
             "the references of the RAW document inside Coq and evaluates Spec6.v on it for values aimed at the tree, (iii) checks json.dumps, $ref resolution and the Draft-6 metaschema (jsonschema).  "
             "Findings K15, K21, K25.",
-            "full on reference-free trees and on trees with uniquely named object classes; caller definitions / several roots by model recomputation and the Spec6 oracle evaluated in Coq"),
+            "full on reference-free trees, on trees with uniquely named object classes, and with caller definitions / several roots under the checked premises; outside the fragments by model recomputation and the Spec6 oracle evaluated in Coq"),
     "C06": ("Coq theorems by induction on the schema and on the element tree: C06_idempotent_classfree (class-free schemas: the parser's image lies in the normal form nf, and on nf parse(serialize e) = e in every parse state, so the second round trip writes the first document), C06_normal_form_keeps_meaning (serialize(parse S) accepts what S accepts), refutation C06_idempotence_refuted (K24) + executable sound checkers of both fragments counted per run + the real pipeline materialize->parse->serialize three times + executed Python classes vs parsed classes",
             "C06_idempotent_classfree: for every schema of the class-free fragment (C01's plain) with no empty property name and `tidy` (no empty required list / properties object: finding K24 otherwise; "
             "additionalItems/additionalProperties a boolean or a schema without composition keywords), every parse state and configuration satisfying cfg_okb (decided on the tables read from /repo): the element "
